@@ -205,3 +205,7 @@ pub broadcast group vx_axioms {
 #[verifier::external_body]
 #[verifier::reject_recursive_types(T)]
 pub struct ExRepeat<T>(core::iter::Repeat<T>);
+
+// ---- reflexive conversion `impl<T> From<T> for T` is the identity ----
+pub assume_specification<T>[ <T as core::convert::From<T>>::from ](t: T) -> (r: T)
+    ensures r == t;
